@@ -1,7 +1,8 @@
-(* Graph-level soundness of degree claims (C07): on an array-free graph
-   accepted by DegJustify.djust_cfg, in every state reachable by the step
+(* Graph-level soundness of degree claims (C07): on a graph accepted by
+   DegJustify.djust_cfg (arrays included), in every state reachable by the step
    relation of Spec.DegSem, the upper end of every degree range attached to a
-   node bounds the degree of the node's value as a function of the valuation. *)
+   node bounds the degree of the node's value - of EVERY element of it, for an
+   array - as a function of the valuation. *)
 From Coq Require Import ZArith List Bool Lia.
 Require Import Model.Base Model.Ir Model.Propagate Model.Justify Model.DegJustify Gen.DegreeTable.
 Require Import Spec.PolyDeg Spec.DegSem Proofs.IrInd Proofs.PolyDegProofs Proofs.DegreeProofs Proofs.ValueProofs.
@@ -61,6 +62,22 @@ Qed.
 Lemma range_is_constant_snd r : range_is_constant r = true -> snd r = DConst.
 Proof. unfold range_is_constant. rewrite degree_order_is_rank. destruct (snd r); cbn; congruence. Qed.
 
+
+Lemma all_some_all {A} (l : list (option A)) xs : all_some l = Some xs -> forall o, In o l -> exists x, o = Some x.
+Proof.
+  revert xs. induction l as [|o tl IH]; intros xs; cbn [all_some].
+  - intros _ o' [].
+  - destruct o as [y|]; [|discriminate]. destruct (all_some tl) as [ys|] eqn:E; [|discriminate]. intros _ o' [<-|Ho].
+    + eauto.
+    + eapply IH; eauto.
+Qed.
+
+Lemma iter_opt_all rs r o : iter_opt rs = Some r -> In o rs -> exists ra, o = Some ra /\ deg_leb (snd ra) (snd r) = true.
+Proof.
+  intros Hi Ho. pose proof Hi as Hi'. unfold iter_opt in Hi'. destruct (all_some rs) as [xs|] eqn:E; [|discriminate].
+  destruct (all_some_all rs xs E o Ho) as [ra ->]. exists ra. split; [reflexivity|]. eapply iter_opt_upper; eauto.
+Qed.
+
 Section Graph.
 Variable V : Type.
 Variable line : V -> V -> Z -> V.
@@ -68,36 +85,49 @@ Variable p : Z.
 Variable sem2 : infix_op -> Z -> Z -> Z.
 Variable sem1 : prefix_op -> Z -> Z.
 Variable call_sem : ident -> list Z -> Z.
+Variable name_code : ident -> Z.
 Hypothesis Hsem2 : forall op, op_den p op (sem2 op).
 Hypothesis Hsem1 : forall op, prefix_den p op (sem1 op).
 Notation SemDeg := (SemDeg V line p).
-Notation den := (den V p sem2 sem1 call_sem).
+Notation den := (den V p sem2 sem1 call_sem name_code).
 Variable c : cfg.
 
-Definition fstore_ok (s : fstore V) : Prop :=
-  forall x F, s x = Some F -> forall r, var_range c x = Some r -> SemDeg (snd r) F.
+(* every element of the family *)
+Definition SemDegF (d : degree) (F : fam V) : Prop := forall i, SemDeg d (F i).
 
-(* a selection between two functions by a condition that does not depend on the valuation *)
-Lemma select_sound d (C T F : V -> Z) :
-  Constant V C -> SemDeg d T -> SemDeg d F -> SemDeg d (fun rho => if C rho =? 0 then F rho else T rho).
+Definition fstore_ok (s : fstore V) : Prop :=
+  (forall x F, s x = Some F -> forall r, var_range c x = Some r -> SemDegF (snd r) F) /\
+  (forall x F, unassigned c x = true -> s x = Some F -> forall i rho, F i rho = 0).
+
+Lemma SemDeg_zero d (G : V -> Z) : (forall rho, G rho = 0) -> SemDeg d G.
 Proof.
-  intros HC HT HF. destruct d; cbn [PolyDeg.SemDeg] in *.
-  - intros r r'. rewrite (HC r r'). destruct (C r' =? 0); auto.
+  intros H. apply (SemDeg_mono V line p DConst); [destruct d; reflexivity|].
+  cbn. intros r r'. rewrite !H. reflexivity.
+Qed.
+
+(* a selection, by data that do not depend on the valuation, among functions
+   that all obey the bound *)
+Lemma select_general {X : Type} d (K : V -> X) (H : X -> V -> Z) :
+  (forall r r', K r = K r') -> (forall x, SemDeg d (H x)) -> SemDeg d (fun rho => H (K rho) rho).
+Proof.
+  intros HK HH. destruct d; cbn [PolyDeg.SemDeg] in *.
+  - intros r r'. rewrite (HK r r'). apply HH.
   - intros rho delta t.
-    rewrite (Dn_ext 2 _ (fun u => if C rho =? 0 then F (line rho delta u) else T (line rho delta u)))
-      by (intros u; rewrite (HC _ rho); reflexivity).
-    destruct (C rho =? 0); [apply HF|apply HT].
+    rewrite (Dn_ext 2 _ (fun u => H (K rho) (line rho delta u))) by (intros u; rewrite (HK _ rho); reflexivity).
+    apply HH.
   - intros rho delta t.
-    rewrite (Dn_ext 3 _ (fun u => if C rho =? 0 then F (line rho delta u) else T (line rho delta u)))
-      by (intros u; rewrite (HC _ rho); reflexivity).
-    destruct (C rho =? 0); [apply HF|apply HT].
+    rewrite (Dn_ext 3 _ (fun u => H (K rho) (line rho delta u))) by (intros u; rewrite (HK _ rho); reflexivity).
+    apply HH.
   - exact I.
 Qed.
 
+Local Notation sound_at s e :=
+  (forall F, den s e = Some F -> djust_expr c e = true -> forall r, expr_deg e = Some r -> SemDegF (snd r) F).
+
 Lemma den_list_sound s (args : list expr) :
-  Forall (fun e => forall F, den s e = Some F -> djust_expr c e = true -> forall r, expr_deg e = Some r -> SemDeg (snd r) F) args ->
+  Forall (fun e => sound_at s e) args ->
   forall Fs,
-  (fix den_list (es : list expr) : option (list (V -> Z)) :=
+  (fix den_list (es : list expr) : option (list (fam V)) :=
      match es with
      | [] => Some []
      | x :: tl => match den s x, den_list tl with
@@ -108,7 +138,7 @@ Lemma den_list_sound s (args : list expr) :
   (fix dj_list (es : list expr) : bool :=
      match es with [] => true | x :: tl => djust_expr c x && dj_list tl end) args = true ->
   all_constant args = true ->
-  Forall (Constant V) Fs.
+  Forall (fun F : fam V => Constant V (F [])) Fs.
 Proof.
   intros Hall. induction args as [|x tl IH]; intros Fs.
   - intros [= <-] _ _. constructor.
@@ -119,33 +149,110 @@ Proof.
     cbn [all_constant forallb] in Hc. apply andb_true_iff in Hc as [Hc1 Hc2].
     constructor.
     + destruct (expr_deg x) as [r|] eqn:Er; [|discriminate].
-      pose proof (Hx F eq_refl Hd1 r eq_refl) as Hs. rewrite (range_is_constant_snd r Hc1) in Hs. exact Hs.
+      pose proof (Hx F eq_refl Hd1 r eq_refl []) as Hs. rewrite (range_is_constant_snd r Hc1) in Hs. exact Hs.
     + apply (IH Ht Fs' eq_refl Hd2). unfold all_constant. exact Hc2.
 Qed.
 
-Lemma djust_expr_sound s : fstore_ok s ->
-  forall e F, den s e = Some F -> djust_expr c e = true -> forall r, expr_deg e = Some r -> SemDeg (snd r) F.
+(* the elements of an inline array *)
+Lemma den_list_elems s (vs : list expr) :
+  Forall (fun e => sound_at s e) vs ->
+  forall Fs,
+  (fix den_list (es : list expr) : option (list (fam V)) :=
+     match es with
+     | [] => Some []
+     | x :: tl => match den s x, den_list tl with
+                  | Some F, Some Fs => Some (F :: Fs)
+                  | _, _ => None
+                  end
+     end) vs = Some Fs ->
+  (fix dj_list (es : list expr) : bool :=
+     match es with [] => true | x :: tl => djust_expr c x && dj_list tl end) vs = true ->
+  forall r, iter_opt (map expr_deg vs) = Some r ->
+  Forall (SemDegF (snd r)) Fs.
 Proof.
-  intros Hs.
+  intros Hall Fs Hden Hdj r Hr.
+  assert (Hin : forall e, In e vs -> exists re, expr_deg e = Some re /\ deg_leb (snd re) (snd r) = true).
+  { intros e He. apply (iter_opt_all _ r (expr_deg e) Hr). apply in_map. exact He. }
+  clear Hr. revert Fs Hden Hdj Hin. induction vs as [|x tl IH]; intros Fs.
+  - intros [= <-] _ _. constructor.
+  - apply Forall_cons_iff in Hall as [Hx Ht].
+    destruct (den s x) as [F|] eqn:Ex; [|discriminate].
+    match goal with |- context [match ?t with Some _ => _ | None => _ end = Some Fs] => destruct t as [Fs'|] eqn:Et; [|discriminate] end.
+    intros [= <-] Hdj Hin. apply andb_true_iff in Hdj as [Hd1 Hd2]. constructor.
+    + destruct (Hin x (or_introl eq_refl)) as (re & Ere & Hle). intros i.
+      apply (SemDeg_mono V line p (snd re)); [exact Hle|]. apply (Hx F eq_refl Hd1 re Ere).
+    + apply (IH Ht Fs' eq_refl Hd2). intros e He. apply Hin. right. exact He.
+Qed.
+
+(* the index expressions of an access whose indices are all known constant *)
+Lemma den_acc_const s (acc : list (access expr)) :
+  Forall (fun e => sound_at s e) (acc_exprs acc) ->
+  forall Is,
+  (fix den_acc (acc : list (access expr)) : option (list (V -> Z)) :=
+     match acc with
+     | [] => Some []
+     | AIdx x :: tl => match den s x, den_acc tl with
+                       | Some Ix, Some Is => Some (Ix [] :: Is)
+                       | _, _ => None
+                       end
+     | AComp n :: tl => match den_acc tl with
+                        | Some Is => Some ((fun _ => name_code n) :: Is)
+                        | None => None
+                        end
+     end) acc = Some Is ->
+  (fix dj_acc (acc : list (access expr)) : bool :=
+     match acc with
+     | [] => true
+     | AIdx x :: tl => djust_expr c x && dj_acc tl
+     | AComp _ :: tl => dj_acc tl
+     end) acc = true ->
+  constant_indices acc = Some true ->
+  forall r r', map (fun Ix : V -> Z => Ix r) Is = map (fun Ix : V -> Z => Ix r') Is.
+Proof.
+  intros Hall. induction acc as [|a tl IH]; intros Is.
+  - intros [= <-] _ _ r r'. reflexivity.
+  - destruct a as [x|n]; cbn [acc_exprs flat_map app] in Hall.
+    + apply Forall_cons_iff in Hall as [Hx Ht].
+      destruct (den s x) as [Ix|] eqn:Ex; [|discriminate].
+      match goal with |- context [match ?t with Some _ => _ | None => _ end = Some Is] => destruct t as [Is'|] eqn:Et; [|discriminate] end.
+      intros [= <-] Hdj Hc r r'. apply andb_true_iff in Hdj as [Hd1 Hd2].
+      cbn [constant_indices] in Hc. destruct (expr_deg x) as [rx|] eqn:Erx; [|discriminate].
+      destruct (range_is_constant rx) eqn:Ecx; [|discriminate].
+      cbn [map]. f_equal.
+      * pose proof (Hx Ix eq_refl Hd1 rx eq_refl []) as Hs. rewrite (range_is_constant_snd rx Ecx) in Hs. apply Hs.
+      * apply (IH Ht Is' eq_refl Hd2 Hc).
+    + match goal with |- context [match ?t with Some _ => _ | None => _ end = Some Is] => destruct t as [Is'|] eqn:Et; [|discriminate] end.
+      intros [= <-] Hdj Hc r r'. cbn [constant_indices] in Hc. cbn [map]. f_equal. apply (IH Hall Is' eq_refl Hdj Hc).
+Qed.
+
+Lemma index_adjust_cases acc rb rg : index_adjust acc rb = Some rg ->
+  (constant_indices acc = Some true /\ rg = rb) \/ snd rg = DNonQuad.
+Proof.
+  unfold index_adjust. destruct (constant_indices acc) as [[|]|]; try discriminate; intros [= <-]; [left; auto|right; reflexivity].
+Qed.
+
+Lemma djust_expr_sound s : fstore_ok s -> forall e, sound_at s e.
+Proof.
+  intros [Hs Hz].
   induction e as [z k|v k|op l r k IHl IHr|op e k IHe|cd t f k IHc IHt IHf|n args k IHargs|vs k IHvs
                   |v acc k IHacc|v acc rhe k IHacc IHrhe|args k] using expr_ind';
     intros F Hden Hdj rg Hrg; cbn [DegSem.den] in Hden; cbn [djust_expr] in Hdj;
     unfold expr_deg in Hrg; cbn [expr_know] in Hrg; try discriminate.
-  - injection Hden as <-. pose proof (deg_claim_is_spec _ _ _ Hdj Hrg) as H. injection H as <-. cbn. intros r r'. reflexivity.
+  - injection Hden as <-. pose proof (deg_claim_is_spec _ _ _ Hdj Hrg) as H. injection H as <-. intros i. cbn. intros r r'. reflexivity.
   - pose proof (deg_claim_is_spec _ _ _ Hdj Hrg) as H. eapply Hs; eauto.
   - destruct (den s l) as [Fl|] eqn:El; [|discriminate]. destruct (den s r) as [Fr|] eqn:Er; [|discriminate].
     injection Hden as <-. apply andb_true_iff in Hdj as [Hdj Hk]. apply andb_true_iff in Hdj as [Hdl Hdr].
     pose proof (deg_claim_is_spec _ _ _ Hk Hrg) as H. unfold opt_range_infix in H.
     destruct (expr_deg l) as [rl|] eqn:Edl; [|discriminate]. destruct (expr_deg r) as [rr|] eqn:Edr; [|discriminate].
-    injection H as <-. cbn [range_infix snd].
-    apply (infix_bound_sound V line p op (snd rl) (snd rr) Fl Fr (sem2 op) (Hsem2 op)).
+    injection H as <-. cbn [range_infix snd]. intros i.
+    apply (infix_bound_sound V line p op (snd rl) (snd rr) (Fl i) (Fr i) (sem2 op) (Hsem2 op)).
     + apply (IHl Fl eq_refl Hdl rl). reflexivity.
     + apply (IHr Fr eq_refl Hdr rr). reflexivity.
   - destruct (den s e) as [Fe|] eqn:Ee; [|discriminate]. injection Hden as <-.
     apply andb_true_iff in Hdj as [Hde Hk].
     pose proof (deg_claim_is_spec _ _ _ Hk Hrg) as H. unfold opt_range_prefix in H.
-    destruct (expr_deg e) as [re|] eqn:Ede; [|discriminate]. injection H as <-. cbn [range_prefix snd].
-    apply (prefix_bound_sound V line p op (snd re) Fe (sem1 op) (Hsem1 op)).
+    destruct (expr_deg e) as [re|] eqn:Ede; [|discriminate]. injection H as <-. cbn [range_prefix snd]. intros i.
+    apply (prefix_bound_sound V line p op (snd re) (Fe i) (sem1 op) (Hsem1 op)).
     apply (IHe Fe eq_refl Hde re). reflexivity.
   - destruct (den s cd) as [C|] eqn:Ec; [|discriminate]. destruct (den s t) as [T|] eqn:Et; [|discriminate].
     destruct (den s f) as [Ff|] eqn:Ef; [|discriminate]. injection Hden as <-.
@@ -153,30 +260,76 @@ Proof.
     pose proof (deg_claim_is_spec _ _ _ Hk Hrg) as H.
     destruct (expr_deg cd) as [rc|] eqn:Edc; [|discriminate].
     destruct (range_is_constant rc) eqn:Erc; [|discriminate].
-    assert (HC : Constant V C).
-    { pose proof (IHc C eq_refl Hdc rc eq_refl) as Hsc. rewrite (range_is_constant_snd rc Erc) in Hsc. exact Hsc. }
+    assert (HC : Constant V (C [])).
+    { pose proof (IHc C eq_refl Hdc rc eq_refl []) as Hsc. rewrite (range_is_constant_snd rc Erc) in Hsc. exact Hsc. }
     destruct (expr_deg t) as [rt|] eqn:Edt; [|cbn in H; discriminate].
     destruct (expr_deg f) as [rf|] eqn:Edf; [|cbn in H; discriminate].
-    apply select_sound; [exact HC| |].
-    + apply (SemDeg_mono V line p (snd rt)); [eapply iter_opt_upper; [exact H|left; reflexivity]|].
-      apply (IHt T eq_refl Hdt rt eq_refl).
+    intros i.
+    apply (select_general (snd rg) (C []) (fun x rho => if x =? 0 then Ff i rho else T i rho) HC).
+    intros x. destruct (x =? 0).
     + apply (SemDeg_mono V line p (snd rf)); [eapply iter_opt_upper; [exact H|right; left; reflexivity]|].
       apply (IHf Ff eq_refl Hdf rf eq_refl).
+    + apply (SemDeg_mono V line p (snd rt)); [eapply iter_opt_upper; [exact H|left; reflexivity]|].
+      apply (IHt T eq_refl Hdt rt eq_refl).
   - match type of Hden with match ?t with Some _ => _ | None => _ end = _ => destruct t as [Fs|] eqn:El; [|discriminate] end.
     injection Hden as <-. apply andb_true_iff in Hdj as [Hdl Hk].
     pose proof (deg_claim_is_spec _ _ _ Hk Hrg) as H.
-    destruct (all_constant args) eqn:Eac; [|discriminate]. injection H as <-. cbn [snd PolyDeg.SemDeg].
+    destruct (all_constant args) eqn:Eac; [|discriminate]. injection H as <-. cbn [snd]. intros i. cbn [PolyDeg.SemDeg].
     pose proof (den_list_sound s args IHargs Fs El Hdl Eac) as HFs.
     intros r r'. f_equal. clear -HFs. induction HFs as [|G Gs HG HGs IH]; [reflexivity|]. cbn [map]. rewrite (HG r r'), IH. reflexivity.
+  - (* inline array *)
+    match type of Hden with match ?t with Some _ => _ | None => _ end = _ => destruct t as [Fs|] eqn:El; [|discriminate] end.
+    injection Hden as <-. apply andb_true_iff in Hdj as [Hdl Hk].
+    pose proof (deg_claim_is_spec _ _ _ Hk Hrg) as H.
+    pose proof (den_list_elems s vs IHvs Fs El Hdl rg H) as HFs.
+    intros i. unfold array_fam. destruct i as [|j rest]; [apply SemDeg_zero; reflexivity|].
+    destruct (j <? 0); [apply SemDeg_zero; reflexivity|].
+    destruct (nth_error Fs (Z.to_nat j)) as [G|] eqn:En; [|apply SemDeg_zero; reflexivity].
+    rewrite Forall_forall in HFs. apply (HFs G). eapply nth_error_In; eauto.
+  - (* access *)
+    destruct (s v) as [A|] eqn:Ev; [|discriminate].
+    match type of Hden with match ?t with Some _ => _ | None => _ end = _ => destruct t as [Is|] eqn:Ea; [|discriminate] end.
+    injection Hden as <-. apply andb_true_iff in Hdj as [Hda Hk].
+    pose proof (deg_claim_is_spec _ _ _ Hk Hrg) as H. unfold opt_index_adjust in H.
+    destruct (var_range c v) as [rv|] eqn:Erv; [|discriminate].
+    destruct (index_adjust_cases _ _ _ H) as [[Hci ->]|Hnq]; [|intros i; rewrite Hnq; exact I].
+    pose proof (den_acc_const s acc IHacc Is Ea Hda Hci) as Hconst.
+    intros i. unfold access_fam.
+    apply (select_general (snd rv) (fun rho => map (fun Ix : V -> Z => Ix rho) Is ++ i) (fun x rho => A x rho)).
+    + intros r r'. rewrite (Hconst r r'). reflexivity.
+    + intros x. apply (Hs v A Ev rv Erv).
+  - (* element-wise update *)
+    destruct (s v) as [A|] eqn:Ev; [|discriminate].
+    match type of Hden with match ?t with Some _ => _ | None => _ end = _ => destruct t as [Is|] eqn:Ea; [|discriminate] end.
+    destruct (den s rhe) as [R|] eqn:Er; [|discriminate].
+    injection Hden as <-. apply andb_true_iff in Hdj as [Hdj Hk]. apply andb_true_iff in Hdj as [Hda Hdr].
+    pose proof (deg_claim_is_spec _ _ _ Hk Hrg) as H. unfold opt_index_adjust in H.
+    destruct (update_base_range c v (expr_deg rhe)) as [rb|] eqn:Erb; [|discriminate].
+    destruct (index_adjust_cases _ _ _ H) as [[Hci ->]|Hnq]; [|intros i; rewrite Hnq; exact I].
+    pose proof (den_acc_const s acc IHacc Is Ea Hda Hci) as Hconst.
+    (* both the old elements and the new one obey the bound *)
+    assert (HA : forall i, SemDeg (snd rb) (A i)).
+    { unfold update_base_range in Erb. destruct (var_range c v) as [rv|] eqn:Erv.
+      - intros i. apply (SemDeg_mono V line p (snd rv)); [eapply iter_opt_upper; [exact Erb|left; reflexivity]|].
+        apply (Hs v A Ev rv Erv).
+      - destruct (unassigned c v) eqn:Eu; [|discriminate]. intros i. apply SemDeg_zero. intros rho. apply (Hz v A Eu Ev). }
+    assert (HR : forall i, SemDeg (snd rb) (R i)).
+    { unfold update_base_range in Erb. destruct (var_range c v) as [rv|] eqn:Erv.
+      - destruct (iter_opt_all _ rb (expr_deg rhe) Erb (or_intror (or_introl eq_refl))) as (rr & Err & Hle).
+        intros i. apply (SemDeg_mono V line p (snd rr)); [exact Hle|]. apply (IHrhe R eq_refl Hdr rr Err).
+      - destruct (unassigned c v); [|discriminate]. intros i. apply (IHrhe R eq_refl Hdr rb Erb). }
+    intros i. unfold update_fam.
+    apply (select_general (snd rb) (fun rho => map (fun Ix : V -> Z => Ix rho) Is)
+                          (fun x rho => match prefix_of x i with Some rest => R rest rho | None => A i rho end)).
+    + intros r r'. apply Hconst.
+    + intros x. destruct (prefix_of x i); [apply HR|apply HA].
 Qed.
 
 (* ---------- the step relation preserves fstore_ok ---------- *)
 Hypothesis Hvalid : djust_cfg c = true.
 
 Lemma stmt_djust s0 : In s0 (all_stmts (c_blocks c)) -> djust_stmt c s0 = true.
-Proof.
-  unfold djust_cfg in Hvalid. apply andb_true_iff in Hvalid as [_ H]. rewrite forallb_forall in H. auto.
-Qed.
+Proof. unfold djust_cfg in Hvalid. rewrite forallb_forall in Hvalid. auto. Qed.
 
 Lemma local_def_range_def v r s0 :
   local_def_range (all_stmts (c_blocks c)) v = Some r -> In s0 (all_stmts (c_blocks c)) -> ddef_ok v r s0 = true.
@@ -191,17 +344,29 @@ Lemma var_range_local x r : decl_of c x = Some TLocal -> is_param c x = false ->
   var_range c x = Some r -> local_def_range (all_stmts (c_blocks c)) x = Some r.
 Proof. unfold var_range. intros -> ->. auto. Qed.
 
-Lemma fstep_preserves s s' : fstore_ok s -> fstep V p sem2 sem1 call_sem c s s' -> fstore_ok s'.
+Lemma assigned_not_unassigned m x op rhe sv st :
+  In (SSubst m x op rhe sv st) (all_stmts (c_blocks c)) -> unassigned c x = false.
 Proof.
-  intros Hs Hst. destruct Hst as
-    [m x op rhe sv st F s Hin Hloc Hnp Hphi Hden | m x op args k sv st a F s Hin Hloc Hnp Ha Hsa | m x op rhe sv st s Hin Hloc Hnp].
+  intros Hin. unfold unassigned.
+  assert (E : existsb (defines x) (all_stmts (c_blocks c)) = true).
+  { apply existsb_exists. eexists. split; [exact Hin|]. cbn [defines]. apply vname_eqb_refl. }
+  rewrite E. reflexivity.
+Qed.
+
+Lemma fstep_preserves s s' : fstore_ok s -> fstep V p sem2 sem1 call_sem name_code c s s' -> fstore_ok s'.
+Proof.
+  intros Hok Hst. pose proof Hok as [Hs Hz]. destruct Hst as
+    [m x op rhe sv st F s Hin Hloc Hnp Hphi Hden | m x op args k sv st a F s Hin Hloc Hnp Ha Hsa | m x op rhe sv st s Hin Hloc Hnp];
+    (split; [|intros y G Hu Hy; unfold fupd in Hy; destruct (vname_eqb x y) eqn:E;
+                [apply vname_eqb_eq in E; subst y; rewrite (assigned_not_unassigned _ _ _ _ _ _ Hin) in Hu; discriminate
+                |eapply Hz; eauto]]).
   - intros y G Hy r Hr. unfold fupd in Hy. destruct (vname_eqb x y) eqn:E.
     + apply vname_eqb_eq in E. subst y. injection Hy as <-.
       pose proof (local_def_range_def x r _ (var_range_local x r Hloc Hnp Hr) Hin) as Hd.
       cbn [ddef_ok] in Hd. rewrite vname_eqb_refl in Hd. apply andb_true_iff in Hd as [_ Hd].
       apply opt_drange_eqb_eq in Hd.
       pose proof (stmt_djust _ Hin) as Hj. cbn [djust_stmt] in Hj.
-      exact (djust_expr_sound s Hs rhe F Hden Hj r Hd).
+      exact (djust_expr_sound s Hok rhe F Hden Hj r Hd).
     + eapply Hs; eauto.
   - intros y G Hy r Hr. unfold fupd in Hy. destruct (vname_eqb x y) eqn:E.
     + apply vname_eqb_eq in E. subst y. injection Hy as <-.
@@ -211,36 +376,37 @@ Proof.
       pose proof (stmt_djust _ Hin) as Hj. cbn [djust_stmt djust_expr] in Hj.
       pose proof (deg_claim_is_spec _ _ _ Hj Hd) as Hi.
       (* the copied argument's range is below the infimum *)
-      destruct (var_range c a) as [ra|] eqn:Era.
-      * apply (SemDeg_mono V line p (snd ra)).
-        -- eapply iter_opt_upper; [exact Hi|]. apply in_map_iff. exists a. split; [exact Era|exact Ha].
-        -- eapply Hs; eauto.
-      * exfalso. unfold iter_opt in Hi.
-        assert (all_some (map (var_range c) args) = None).
-        { clear -Era Ha. induction args as [|b tl IH]; [contradiction|]. cbn [map all_some]. destruct Ha as [->|Ha].
-          - rewrite Era. reflexivity.
-          - destruct (var_range c b); [|reflexivity]. rewrite (IH Ha). reflexivity. }
-        rewrite H in Hi. discriminate.
+      destruct (iter_opt_all _ r (var_range c a) Hi (in_map _ _ _ Ha)) as (ra & Era & Hle).
+      intros i. apply (SemDeg_mono V line p (snd ra)); [exact Hle|]. apply (Hs a F Hsa ra Era).
     + eapply Hs; eauto.
   - intros y G Hy r Hr. unfold fupd in Hy. destruct (vname_eqb x y) eqn:E; [discriminate|]. eapply Hs; eauto.
 Qed.
 
 (* initial stores: parameters (constants for templates, indeterminates for
-   functions), signals and component ports (indeterminates) *)
+   functions), signals and component ports (every element an indeterminate),
+   never-assigned locals (zeros) *)
 Definition finit_ok (s0 : fstore V) : Prop :=
   forall x F, s0 x = Some F ->
-    (is_param c x = true /\ match c_kind c with KFunction => Deg V line p 1 F | _ => Constant V F end) \/
-    (is_param c x = false /\ (exists t, decl_of c x = Some t /\ t <> TLocal) /\ Deg V line p 1 F).
+    (is_param c x = true /\ forall i, match c_kind c with KFunction => Deg V line p 1 (F i) | _ => Constant V (F i) end) \/
+    (is_param c x = false /\ (exists t, decl_of c x = Some t /\ t <> TLocal) /\ forall i, Deg V line p 1 (F i)) \/
+    (unassigned c x = true /\ forall i rho, F i rho = 0).
 
 Lemma finit_store_ok s0 : finit_ok s0 -> fstore_ok s0.
 Proof.
-  intros Hi x F Hx r Hr. destruct (Hi x F Hx) as [[Hp HF]|(Hp & (t & Ht & Hnl) & HF)]; unfold var_range in Hr; rewrite Hp in Hr.
-  - destruct (existsb (defines x) (all_stmts (c_blocks c))); [discriminate|]. injection Hr as <-.
-    destruct (c_kind c); cbn [snd PolyDeg.SemDeg]; exact HF.
-  - rewrite Ht in Hr. destruct t; try congruence; injection Hr as <-; exact HF.
+  intros Hi. split.
+  - intros x F Hx r Hr. destruct (Hi x F Hx) as [[Hp HF]|[(Hp & (t & Ht & Hnl) & HF)|[Hu HF]]].
+    + unfold var_range in Hr. rewrite Hp in Hr.
+      destruct (existsb (defines x) (all_stmts (c_blocks c))); [discriminate|]. injection Hr as <-.
+      intros i. specialize (HF i). destruct (c_kind c); cbn [snd PolyDeg.SemDeg]; exact HF.
+    + unfold var_range in Hr. rewrite Hp, Ht in Hr. intros i. destruct t; try congruence; injection Hr as <-; apply HF.
+    + intros i. apply SemDeg_zero. intros rho. apply HF.
+  - intros x F Hu Hx. destruct (Hi x F Hx) as [[Hp HF]|[(Hp & (t & Ht & Hnl) & HF)|[_ HF]]].
+    + unfold unassigned in Hu. rewrite Hp in Hu. rewrite andb_false_r in Hu. discriminate.
+    + unfold unassigned in Hu. rewrite Ht in Hu. destruct t; try congruence; rewrite andb_false_r in Hu; discriminate.
+    + exact HF.
 Qed.
 
-Lemma freachable_ok s0 s : finit_ok s0 -> freachable V p sem2 sem1 call_sem c s0 s -> fstore_ok s.
+Lemma freachable_ok s0 s : finit_ok s0 -> freachable V p sem2 sem1 call_sem name_code c s0 s -> fstore_ok s.
 Proof.
   intros Hi Hr. induction Hr as [|s1 s2 Hr IH Hst].
   - apply finit_store_ok. exact Hi.
@@ -248,8 +414,8 @@ Proof.
 Qed.
 
 Theorem justified_degrees_true s0 s e F r :
-  finit_ok s0 -> freachable V p sem2 sem1 call_sem c s0 s ->
-  djust_expr c e = true -> den s e = Some F -> expr_deg e = Some r -> SemDeg (snd r) F.
+  finit_ok s0 -> freachable V p sem2 sem1 call_sem name_code c s0 s ->
+  djust_expr c e = true -> den s e = Some F -> expr_deg e = Some r -> forall i, SemDeg (snd r) (F i).
 Proof.
   intros Hi Hr Hj Hden Hd.
   exact (djust_expr_sound s (freachable_ok s0 s Hi Hr) e F Hden Hj r Hd).
